@@ -36,7 +36,7 @@ class HarnessError(Exception):
     pass
 
 
-class CaseTimeout(Exception):
+class CaseTimeout(BaseException):     # not an Exception: neither the library's retry loop nor a comparison may swallow it
     pass
 
 
@@ -378,15 +378,20 @@ def _alarm(signum, frame):
 
 def guarded_run(prop, case, ctx):
     """run_case under a wall-clock guard; a hang of the implementation is an observable."""
+    # a hang of the implementation is an observable - but a stall of the machine is not: the guard counts the CPU time this
+    # process burns (an endless loop trips it after `case_timeout_s` seconds of work); the wall clock only catches a case
+    # that waits for ever, and is ten times as patient
+    signal.signal(signal.SIGPROF, _alarm)
     signal.signal(signal.SIGALRM, _alarm)
-    signal.alarm(prop.case_timeout_s)
+    signal.setitimer(signal.ITIMER_PROF, prop.case_timeout_s)
+    signal.alarm(10 * prop.case_timeout_s)
     try:
         return prop.run_case(case, ctx)
     except TooDeep:
         ctx.note('skipped:value-nesting-beyond-json-decoder')
         return None
     except CaseTimeout:
-        return Mismatch('case did not finish within %ds' % prop.case_timeout_s,
+        return Mismatch('case did not finish within %ds of CPU time (or ten times that on the wall clock)' % prop.case_timeout_s,
                         impl='Timeout', model=None, signature='timeout')
     except (HarnessError, KeyboardInterrupt):
         raise
@@ -398,6 +403,7 @@ def guarded_run(prop, case, ctx):
                         impl=traceback.format_exc()[-1500:], model=None, signature='uninterpretable:' + type(e).__name__,
                         relation='model-only')
     finally:
+        signal.setitimer(signal.ITIMER_PROF, 0)
         signal.alarm(0)
 
 
@@ -528,7 +534,9 @@ def run_check(prop, tier='quick', seed=0, replay=None):
     proof_broken = bool(lean.failed)
     tie_lost = bool(ext and ext.get('status') == 'lost')
     escalate = proof_broken or tie_lost
-    eff_tier = 'thorough' if escalate else tier
+    # a broken obligation or a lost tie makes the run search harder for a failing input: a thorough run stays thorough; a
+    # quick run keeps the quick tier's fixed cases but draws six times the random cases within three times the budget
+    eff_tier = 'thorough' if tier == 'thorough' else ('escalated' if escalate else tier)
 
     # ---- 2. campaign ---------------------------------------------------------------------
     ctx.driver = Driver()
@@ -538,11 +546,14 @@ def run_check(prop, tier='quick', seed=0, replay=None):
     n_viol = 0
     try:
         prop.setup(ctx)
-        ctx.tier = eff_tier
+        gen_tier = 'thorough' if eff_tier == 'thorough' else 'quick'
+        ctx.tier = gen_tier
         budget = prop.thorough_budget_s if eff_tier == 'thorough' else prop.quick_budget_s
         # thorough: the per-property case count times VERIF_THOROUGH_SCALE, still cut by the time budget
         ncases = (prop.thorough_cases * int(os.environ.get('VERIF_THOROUGH_SCALE', '6'))) if eff_tier == 'thorough' \
             else prop.quick_cases
+        if eff_tier == 'escalated':
+            budget, ncases = 3 * budget, 6 * ncases
         budget = float(os.environ.get('VERIF_BUDGET_S', budget))
         ncases = int(os.environ.get('VERIF_CASES', ncases))
 
@@ -552,11 +563,11 @@ def run_check(prop, tier='quick', seed=0, replay=None):
                 for fn in sorted(os.listdir(cdir)):
                     if fn.endswith('.json'):
                         yield 'corpus', json.load(open(os.path.join(cdir, fn)))['case']
-            for c in prop.fixed_cases(eff_tier):
+            for c in prop.fixed_cases(gen_tier):
                 yield 'fixed', c
             i = 0
             while i < ncases:
-                yield 'random', prop.gen(case_rng(seed, prop.id, i), eff_tier)
+                yield 'random', prop.gen(case_rng(seed, prop.id, i), gen_tier)
                 i += 1
 
         t_camp = time.time()
